@@ -40,15 +40,15 @@ VecOK(i) ==
       cnt == IF v.ro THEN 2 ELSE 1
       u == HashToFieldP(v.msg, v.dst, cnt)
       P == C!Pt(OS2IP(v.px), OS2IP(v.py))
-      q0 == S!MapToCurve(u[1])
+      q0 == SW!MapToCurve(u[1])
       Q0 == C!Pt(OS2IP(v.q0x), OS2IP(v.q0y))
   IN  /\ \A j \in 1..cnt : I2OSP(u[j], 32) = v.u[j]
-      /\ S!IsMapOf(u[1], q0)
+      /\ SW!IsMapOf(u[1], q0)
       /\ CI!OnCurve(q0)
       /\ IsoMapF(q0) = Q0
       /\ IsIsoMapOf(q0, Q0)
       /\ IF v.ro
-         THEN LET q1 == S!MapToCurve(u[2])
+         THEN LET q1 == SW!MapToCurve(u[2])
                   Q1 == C!Pt(OS2IP(v.q1x), OS2IP(v.q1y))
                   r  == CI!AddAffine(q0, q1)
               IN  /\ IsoMapF(q1) = Q1
